@@ -19,6 +19,7 @@ type c03path struct {
 	SmallPool  bool     `json:"small_id_pool"`
 	Deliveries int      `json:"deliveries"`
 	Events     []string `json:"events"`
+	FirstWriteFails bool `json:"first_transmission_write_fails"`
 }
 
 // static automaton used to enumerate only meaningful scripts
@@ -38,7 +39,10 @@ func c03paths() []c03path {
 		var rec func(ev []string, s st)
 		rec = func(ev []string, s st) {
 			if len(ev) > 0 {
-				out = append(out, c03path{small, nd, append([]string{}, ev...)})
+				out = append(out, c03path{small, nd, append([]string{}, ev...), false})
+				if nd == 2 && len(ev) <= vk.Pick(3, 4) {
+					out = append(out, c03path{small, nd, append([]string{}, ev...), true})
+				}
 			}
 			if len(ev) >= maxLen {
 				return
@@ -117,7 +121,7 @@ func TestC03Retransmission(t *testing.T) {
 				w := NewWorld(t, 1, o)
 				defer w.Close()
 				viol := func(sig, format string, a ...any) {
-					rep.Violate(vk.Violation{Sig: sig, Msg: fmt.Sprintf("script %v (small pool %v): ", p.Events, p.SmallPool) + fmt.Sprintf(format, a...), Replay: p})
+					rep.Violate(vk.Violation{Sig: sig, Msg: fmt.Sprintf("script %v (small pool %v, first write fails %v): ", p.Events, p.SmallPool, p.FirstWriteFails) + fmt.Sprintf(format, a...), Replay: p})
 				}
 				nSess := 1
 				if p.Deliveries == 3 {
@@ -153,11 +157,18 @@ func TestC03Retransmission(t *testing.T) {
 				if p.Deliveries == 3 {
 					ds = append(ds, &c03delivery{sess: 1, topic: "q1/a", qos: 1})
 				}
+				if p.FirstWriteFails {
+					subs[0].FailBrokerWrites(true) // the first transmission of both deliveries errors at the socket
+				}
 				pub.Publish("q1/a", "pa", 1, false, 1)
 				w.Step()
 				pub.Publish("q2/b", "pb", 1, false, 2)
 				w.Step()
 				w.Idle(700 * time.Millisecond) // identifier 0 costs the writer one 100 ms retry
+				if p.FirstWriteFails {
+					subs[0].FailBrokerWrites(false)
+					w.Idle(6 * time.Second) // the deliveries must come with the next retransmission
+				}
 				count := func(d *c03delivery) (n int, ids map[int32]bool) {
 					ids = map[int32]bool{}
 					for _, r := range subs[d.sess].Received() {
